@@ -283,6 +283,21 @@ func c07Pair(c *Ctx, ga, gb *genetics.Genome, ra, rb []geneRec, opts *neat.Optio
 		return map[string]interface{}{"a": fmtRecs(ra), "b": fmtRecs(rb), "excess_coeff": opts.ExcessCoeff, "disjoint_coeff": opts.DisjointCoeff,
 			"mutdiff_coeff": opts.MutdiffCoeff, "reference": want, "E": e, "D": d, "M": m, "results": vals, "pattern": pattern}
 	}
+	// measuring a distance must not change what is measured
+	for _, side := range []struct {
+		g   *genetics.Genome
+		was []geneRec
+	}{{ga, ra}, {gb, rb}} {
+		now := geneRecs(side.g)
+		same := len(now) == len(side.was)
+		for i := 0; same && i < len(now); i++ {
+			same = now[i].innov == side.was[i].innov && fbits(now[i].mut) == fbits(side.was[i].mut)
+		}
+		if !same {
+			c.Violate("genome-modified", detail(), "computing the compatibility distance modified a genome")
+			return
+		}
+	}
 	for _, x := range results {
 		if math.IsNaN(x.v) {
 			c.Violate("nan", detail(), "%s is NaN (formula gives %v; E=%d D=%d M=%d)", x.name, want, e, d, m)
